@@ -35,6 +35,15 @@ class GenList:
         return iter(self.items)
 
 
+class ObjArr:
+    """1-d NumPy array of dtype object holding repository objects (np.array([landscape, ...])): arithmetic is elementwise through
+    the objects' own operators, np.sum folds with + from the left (np.add.reduce)"""
+
+    def __init__(self, items):
+        self.items = list(items)
+        self.shape = (len(self.items),)
+
+
 class AppendList(SymSeq):
     """python list that is only appended to, with a symbolic number of elements"""
 
@@ -343,6 +352,35 @@ def _range(*a):
     return s
 
 
+def buffer_key(eng, arr):
+    """small stable number identifying the buffer behind an array on this path"""
+    keys = eng.ghost.setdefault("buf_keys", {})
+    return keys.setdefault(id(arr.buf), (len(keys), arr.buf))[0]
+
+
+def row_identity(eng, v):
+    """(buffer key, row index) when v is a whole row of a 2-d buffer, else None"""
+    if not (isinstance(v, Arr) and v.ndim == 1):
+        return None
+    try:
+        a, b = v.fwd((0,)), v.fwd((1,))
+    except Exception:
+        return None
+    if not (len(a) == 2 and len(b) == 2 and isinstance(a[1], int) and a[1] == 0 and isinstance(b[1], int) and b[1] == 1):
+        return None
+    if not (a[0] is b[0] or str(to_z3(a[0])) == str(to_z3(b[0]))):
+        return None
+    return buffer_key(eng, v), a[0]
+
+
+def interp_term(eng, key, x, a, b, m, row):
+    ufs = eng.ghost.setdefault("interp_ufs", {})
+    if key not in ufs:
+        R = z3.RealSort()
+        ufs[key] = z3.Function("INTERP_%d" % key, R, R, R, z3.IntSort(), z3.IntSort(), R)
+    return Num(ufs[key](V.to_real(to_z3(lift(x))), V.to_real(to_z3(lift(a))), V.to_real(to_z3(lift(b))), to_z3(lift(m)), to_z3(lift(row))))
+
+
 def _minmax(which):
     def f(*args, key=None, default=MISSING):
         e = cur()
@@ -365,9 +403,13 @@ def _minmax(which):
             if isinstance(better, bool):
                 if better:
                     best, kb = x, kx
-            else:
+            elif is_num(x) or isinstance(x, (Arr, list, tuple)):
                 best = _struct_ite(better, x, best)
                 kb = ite(better, kx, kb)
+            else:
+                # objects cannot be merged: decide the comparison on this path
+                if e.branch(zb(better)):
+                    best, kb = x, kx
         return best
     return f
 
@@ -890,6 +932,9 @@ class _NP:
         if isinstance(x, (list, tuple)):
             if len(x) == 0:
                 return Arr((0,), lambda idx: 0.0, dtype=kind or "float")
+            from .engine import Obj
+            if all(isinstance(v, Obj) for v in x):
+                return ObjArr(x)
             return from_nested(list(x), dtype=kind)
         raise Unsupported("np.array(%s)" % type(x).__name__)
 
@@ -936,6 +981,8 @@ class _NP:
             raise Unsupported("linspace with num<=1")
         step = V.num_div(stop - start, as_float(div))
         arr = Arr((num,), lambda idx: start + idx[0] * step, dtype="float")
+        if endpoint:
+            arr.lin = (start, stop, num)      # descriptor used by the modular contract of np.interp
         if retstep:
             return (arr, step)
         return arr
@@ -1075,6 +1122,13 @@ class _NP:
     # -- reductions
     def sum(self, x, axis=None):
         e = cur()
+        if isinstance(x, ObjArr):
+            if axis is not None or not x.items:
+                raise Unsupported("np.sum of an object array with axis / empty")
+            r = x.items[0]
+            for it in x.items[1:]:
+                r = e.binop(ast.Add(), r, it)
+            return r
         if isinstance(x, (list, tuple)):
             x = from_nested(list(x))
         if not isinstance(x, Arr):
@@ -1376,7 +1430,19 @@ class _NP:
         raise Unsupported("issubdtype(%s)" % name)
 
     def interp(self, x, xp, fp):
-        raise Unsupported("np.interp: modular contract only")
+        """D26 (assumed contract of the dependency): np.interp(x, xp, fp)[i] is a function of x[i], xp and fp only - the piecewise-linear
+        interpolant through (xp, fp), constant beyond the ends.  Modular encoding: for xp = np.linspace(a, b, m) and fp = row r of a
+        2-d buffer B the element is INTERP_B(x[i], a, b, m, r) with INTERP_B uninterpreted; other argument forms are not supported."""
+        e = cur()
+        lin = getattr(xp, "lin", None)
+        rid = row_identity(e, fp)
+        if lin is None or rid is None or not isinstance(x, Arr) or x.ndim != 1:
+            raise Unsupported("np.interp: the modular contract needs xp from np.linspace and fp a whole row of a 2-d array")
+        e.definedness(to_z3(lift(xp.shape[0])) == to_z3(lift(fp.shape[0])), "np.interp: fp and xp must have the same length")
+        fx = x.snapshot_fn()
+        key, row = rid
+        a, b, m = lin
+        return Arr(x.shape, lambda idx: interp_term(e, key, fx(idx), a, b, m, row), dtype="float")
 
     class _Random:
         def permutation(self, n):
